@@ -1,12 +1,16 @@
 // FAMILY(iludrop, "C15 [sd]qselect and ilu_[sd]drop_row called directly: the dropping rules of the incomplete LU against the model Slu.IluDrop / Slu.QSelect")
 #include "putil.h"
 #include "ilu_events.h"
-/* real precisions only (the complex files differ in the norms, the accumulation and the compensation: not modelled yet) */
+/* s, d, z (ilu_cdrop_row: the mixed float/double expressions of scasum/icamax/c_abs1 are not mirrored yet) */
 #define PREC_S
 #include "prec.h"
 #include "fam_iludrop.inc"
 #include "unprec.h"
 #define PREC_D
+#include "prec.h"
+#include "fam_iludrop.inc"
+#include "unprec.h"
+#define PREC_Z
 #include "prec.h"
 #include "fam_iludrop.inc"
 #include "unprec.h"
@@ -16,6 +20,6 @@ void fam_iludrop(ctx_t *c) {
         int dbl = (ty == 'd' || ty == 'z');
         int kind = (i % 5) < 2;   /* 40% qselect, 60% drop_row */
         if (kind) { if (dbl) iludrop_qsel_d(c, i, &r); else iludrop_qsel_s(c, i, &r); }
-        else { if (dbl) iludrop_row_d(c, i, &r); else iludrop_row_s(c, i, &r); }
+        else { if (ty == 'z' || (ty == 'c' && (i & 4))) iludrop_row_z(c, i, &r); else if (dbl) iludrop_row_d(c, i, &r); else iludrop_row_s(c, i, &r); }
     }
 }
